@@ -97,7 +97,7 @@ func underRoot(root, p string) bool {
 	return p == root || strings.HasPrefix(p, root+"/")
 }
 
-var c18Alphabet = []string{"", ".", "..", "a", "b.c", "d e", "..x"}
+var c18Alphabet = []string{"", ".", "..", "a", "b.c", "d e", "..x", "r"}
 var c18Roots = []string{"/", "/r", "/r/s", "/r/s/t"}
 
 func c18EnumNames(maxSeg int, f func(string)) {
@@ -144,7 +144,7 @@ type c18Case struct {
 func init() { runners["C18"] = runC18 }
 
 func runC18(res *Result, tier string, rnd *Rand, replay string) {
-	res.Rule = "names = every sequence over the segment alphabet {'', '.', '..', 'a', 'b.c', 'd e', '..x'} up to L segments, relative and absolute, x roots of depth 0..3 (exhaustive), plus random longer names; non-trivial = name contains a '..', '.', empty or trailing segment (cleaning does work); distinct by (root,name). Every ChrootFs operation is also driven over a recording filesystem."
+	res.Rule = "names = every sequence over the segment alphabet {'', '.', '..', 'a', 'b.c', 'd e', '..x', 'r'} up to L segments, relative and absolute, x roots of depth 0..3 (exhaustive), plus random longer names; non-trivial = name contains a '..', '.', empty or trailing segment (cleaning does work); distinct by (root,name). Every ChrootFs operation is also driven over a recording filesystem."
 	if runtime.GOOS != "linux" {
 		res.Note("non-linux host: model is Unix-only")
 	}
@@ -193,8 +193,8 @@ func runC18(res *Result, tier string, rnd *Rand, replay string) {
 		j, _ := filepath.Abs(filepath.Join(c.Root, c.Name))
 		rl, _ := filepath.Rel(c.Root, j)
 		o := implOut{Clean: filepath.Clean(c.Name), Join: j, Rel: rl, Allowed: len(rf.calls) == 1}
-		if len(rf.calls) == 1 && rf.calls[0].Paths[0] != j {
-			res.Disagree(Disagreement{Input: c, What: "ChrootFs handed down a path different from Abs(Join(root,name))", Impl: rf.calls[0].Paths[0], Model: j})
+		if len(rf.calls) == 1 {
+			o.Join = rf.calls[0].Paths[0] // what the wrapper really handed down
 		}
 		// direct oracle: the path that reached the base filesystem is under the root
 		for _, rc := range rf.calls {
@@ -219,6 +219,44 @@ func runC18(res *Result, tier string, rnd *Rand, replay string) {
 		res.Note("oracle failure: %v", err)
 		res.Disagree(Disagreement{What: "oracle failed: " + err.Error()})
 		return
+	}
+	// direct oracle (model-free): spellings that stay inside the root and have the same lexical
+	// normal form must resolve to the same file
+	type grp struct {
+		join string
+		name string
+	}
+	sameFile := map[string]grp{}
+	for i, c := range cases {
+		if !impl[i].Allowed {
+			continue
+		}
+		// stays inside: walk depth never negative
+		d, ok := 0, true
+		for _, sg := range strings.Split(c.Name, "/") {
+			switch sg {
+			case "", ".":
+			case "..":
+				d--
+				if d < 0 {
+					ok = false
+				}
+			default:
+				d++
+			}
+		}
+		if !ok {
+			continue
+		}
+		key := c.Root + "\x00" + filepath.Clean("/"+c.Name)
+		if g, has := sameFile[key]; has {
+			if g.join != impl[i].Join {
+				res.Violate(Violation{Sig: "spelling-dependent", What: "two spellings of the same in-root path resolve to different files",
+					Input: map[string]any{"root": c.Root, "name": c.Name, "other": g.name}, Got: impl[i].Join, Want: g.join})
+			}
+		} else {
+			sameFile[key] = grp{impl[i].Join, c.Name}
+		}
 	}
 	for i, c := range cases {
 		m := reps[i]
